@@ -7,7 +7,6 @@ import (
 	"os"
 	"encoding/binary"
 	"fmt"
-	"io"
 	"log"
 	"math/rand"
 	"net"
@@ -637,7 +636,7 @@ func runClientScript(t *testing.T, c *caseWriter, vl *violationLog, seedv int64,
 		w.seg.OnSend = w.onSend
 		w.fake.Fail = w.onIfcall
 		ctx, cancel := context.WithCancel(context.Background())
-		mc := client.New(log.New(io.Discard, "", 0), w.iface, "", w.croute)
+		mc := client.New(log.New(logSink{}, "", 0), w.iface, "", w.croute)
 		done := make(chan bool)
 		go func() {
 			defer close(done)
@@ -795,7 +794,7 @@ func TestC15Deadlines(t *testing.T) {
 			ctx, cancel := context.WithCancel(context.Background())
 			cancel()
 			iface := &net.Interface{Index: 1, Name: "dl0", HardwareAddr: net.HardwareAddr{2, 0, 0, 0, 0, 1}}
-			dx := dclient.New(ctx, iface, log.New(io.Discard, "", 0), nil, nil)
+			dx := dclient.New(ctx, iface, log.New(logSink{}, "", 0), nil, nil)
 			o := dhcpmsg.DecodedOptions{IPAddressLeaseDuration: time.Duration(lease) * time.Second,
 				RenewalDuration: time.Duration(t1) * time.Second, RebindDuration: time.Duration(t2) * time.Second}
 			dx.VerifSetLast(dhcpmsg.Message{YourIP: net.IPv4(10, 0, 0, 9)}, o)
@@ -823,7 +822,7 @@ func TestC15Deadlines(t *testing.T) {
 			ctx, cancel := context.WithCancel(context.Background())
 			cancel()
 			iface := &net.Interface{Index: 1, Name: "dl1", HardwareAddr: net.HardwareAddr{2, 0, 0, 0, 0, 1}}
-			dx := dclient.New(ctx, iface, log.New(io.Discard, "", 0), nil, nil)
+			dx := dclient.New(ctx, iface, log.New(logSink{}, "", 0), nil, nil)
 			dx.VerifSetLast(dhcpmsg.Message{YourIP: net.IPv4(10, 0, 0, 9)}, dhcpmsg.DecodedOptions{IPAddressLeaseDuration: time.Duration(lease) * time.Second,
 				RenewalDuration: time.Duration(timers[0]) * time.Second, RebindDuration: time.Duration(timers[1]) * time.Second})
 			now := time.Now()
